@@ -114,7 +114,7 @@ def native_replay(workdir, harness_c, vals, tag, sanitize=True, timeout=60, extr
 
 
 def save_replay(verif_dir, prop, case, payload):
-    d = os.path.join(verif_dir, 'replays', prop)
+    d = os.path.join(os.environ.get('VP_REPLAY_DIR') or os.path.join(verif_dir, 'replays'), prop)
     os.makedirs(d, exist_ok=True)
     path = os.path.join(d, re.sub(r'[^A-Za-z0-9_.-]+', '_', case)[:120] + '.json')
     with open(path, 'w') as fh:
